@@ -170,8 +170,10 @@ func c18GenCase(r *vc.Rand, idx int, prefix string, onlyCare bool) *atCase {
 		st = atGenInsert(r, t, atStmtOpts{params: params, shuffleCols: r.Bool(), mixedArgs: r.Intn(3) == 0}, 1+r.Intn(4), &seq)
 		st.Feat["where"] = ""
 	case kind < 9:
-		if r.Intn(3) == 0 {
-			st = atGenUpsertMulti(r, t, atStmtOpts{params: params}, &seq)
+		if nul := t.Uniq >= 0 && r.Bool(); nul || r.Intn(3) == 0 {
+			// with a secondary unique index: often NULL in its column in the first value group and a collision through
+			// it in the second one
+			st = atGenUpsertMulti(r, t, atStmtOpts{params: params, nullThenUqHit: nul && r.Bool()}, &seq)
 		} else {
 			// every fourth one also assigns the key columns their inserted values: harmless when the duplicate is on the
 			// primary key, a change of the primary key when the row is found through the secondary unique index
